@@ -25,7 +25,7 @@ Section M.
 
   Definition item_ok (Tb : list item) (it : item) : bool :=
     match it with (A, i, j) =>
-      existsb (fun p => eqb A (fst p) && mem j (spans Tb (snd p) i)) (g_prods G) end.
+      existsb (fun p => eqb A (fst p) &&& mem j (spans Tb (snd p) i)) (g_prods G) end.
 
   Definition positions : list nat := seq 0 (S (length w)).
   Definition item_cands : list item :=
